@@ -63,7 +63,7 @@ func (t *TimerCase) Prepare() error {
 	g.connect(d, "CT", "T1", nil, -1)
 	g.addNode(&Node{ID: "End", Kind: "end"})
 	g.connect(d, "T1", "End", nil, -1)
-	defs, err := schema.Parse([]byte(d.XML()))
+	defs, err := parseDefs(d.XML())
 	if err != nil {
 		return err
 	}
